@@ -523,9 +523,11 @@ func checkC04(p *Prog, r *Report) {
 	}
 	if f := p.Fn("Agent.initialCheckingTimeout"); r.Anchor("Agent.initialCheckingTimeout", f != nil) {
 		dObj := p.localByDef(f, func(rhs ast.Expr) bool { return p.IsField(rhs, "Agent.disconnectedTimeout") })
-		wantSum := ""
-		if dObj != nil {
-			wantSum = "($" + dObj.Name() + " + $a.failedTimeout)"
+		wantSum, wantSumAlt := "", ""
+		if dObj != nil && f.Decl != nil && f.Decl.Recv != nil && len(f.Decl.Recv.List) == 1 && len(f.Decl.Recv.List[0].Names) == 1 {
+			rn := f.Decl.Recv.List[0].Names[0].Name
+			wantSum = "($" + dObj.Name() + " + $" + rn + ".failedTimeout)"
+			wantSumAlt = "($" + rn + ".failedTimeout + $" + dObj.Name() + ")"
 		}
 		t := p.NewTable(f)
 		t.Event = func(n ast.Node, _ *TEnv) []string {
@@ -575,9 +577,9 @@ func checkC04(p *Prog, r *Report) {
 				r.Check(res == "0", "initialCheckingTimeout: failed timeout disabled", sp.EndPos, "0 (never fails)", "with a zero failed timeout the checking deadline is "+res)
 			case sp.Vals["lite"] == "true" && sp.Vals["explicit"] == "false":
 				sawLiteDefault = true
-				r.Check(ev == "d=configured,d=default" && res == wantSum, "initialCheckingTimeout: lite default", sp.EndPos, "default disconnected + failed", "lite agent without explicit timeout: "+ev+" -> "+res)
+				r.Check(ev == "d=configured,d=default" && (res == wantSum || res == wantSumAlt) && res != "", "initialCheckingTimeout: lite default", sp.EndPos, "default disconnected + failed", "lite agent without explicit timeout: "+ev+" -> "+res)
 			default:
-				r.Check(ev == "d=configured" && res == wantSum, "initialCheckingTimeout: disconnected + failed "+rowKey(sp, "lite", "explicit"), sp.EndPos, "configured disconnected + failed", "deadline is "+ev+" -> "+res)
+				r.Check(ev == "d=configured" && (res == wantSum || res == wantSumAlt) && res != "", "initialCheckingTimeout: disconnected + failed "+rowKey(sp, "lite", "explicit"), sp.EndPos, "configured disconnected + failed", "deadline is "+ev+" -> "+res)
 			}
 		}
 	}
